@@ -800,7 +800,11 @@ Exec(cfg, pre, ln) ==
               IN Ord(ids, <<>>)
   IN [t |-> "op", op |-> ln.op, c |-> ln.c, s |-> ln.s, a |-> ln.a, v |-> ln.v, k |-> ln.k, fk |-> s.fk, nf |-> s.cnt,
       out |-> IF r.exc = "" THEN "ok" ELSE r.exc,
-      ret |-> IF r.exc # "" THEN -1 ELSE IF ln.op = "cmp" THEN ln.ret ELSE s.ret, ret2 |-> -1,
+      ret |-> IF r.exc # "" THEN -1 ELSE IF ln.op = "cmp" THEN ln.ret ELSE s.ret,
+      \* ret2: how far a single-pass range was consumed (also on failure) / how often the generator was called (on success)
+      ret2 |-> IF ln.op \in {"ctor_rng", "assign_rng", "append_rng", "insert_rng"} /\ RangeKind(ln) = 0
+                 THEN Cardinality({j \in 1..Len(s.evs) : s.evs[j][1] = 7})
+               ELSE IF ln.op = "ctor_gen" /\ r.exc = "" THEN ln.a[2] ELSE -1,
       evs |-> s.evs, evtrunc |-> FALSE,
       post |-> [A |-> ContOf(cfg, s, "A"), B |-> ContOf(cfg, s, "B")], blocks |-> blks, can |-> TRUE]
 
